@@ -285,7 +285,7 @@ class CasJsonDeserializer:
         type_name = json_fs.get(TYPE_FIELD)
         if type_name.endswith("[]"):
             type_name = array_type_name_for_type(type_name)
-        AnnotationType = typesystem.get_type(type_name)
+        AnnotationType = typesystem.get_type(type_name, True)
 
         attributes = dict(json_fs)
 
